@@ -575,8 +575,8 @@ Theorem positional_matching : forall path node ks rs node' rest,
   rest = [] /\
   List.length (targets path node') = List.length ks /\
   forall i t r, nth_error (targets path node) i = Some t -> nth_error rs i = Some r ->
-    exists t', nth_error (targets path node') i = Some t' /\ merge_pair t r = Some t' /\
-               option_map Some (nth_error ks i) = Some (fed_key t).
+    exists t' k, nth_error (targets path node') i = Some t' /\ merge_pair t r = Some t' /\
+                 nth_error ks i = Some k /\ fed_key t = Some k.
 Proof.
   intros path node ks rs node' rest Hk Hl Hg.
   destruct (extract_keys_targets _ _ _ Hk) as [_ [Hm Hlen]].
@@ -585,9 +585,10 @@ Proof.
   split; [|split].
   - subst rest. apply length_zero_iff_nil. rewrite skipn_length. lia.
   - lia.
-  - intros i t r Ht Hr0. destruct (Hn i t r Ht Hr0) as [t' [A B]]. exists t'. repeat split; auto.
+  - intros i t r Ht Hr0. destruct (Hn i t r Ht Hr0) as [t' [A B]].
     assert (X : nth_error (map fed_key (targets path node)) i = Some (fed_key t)) by (apply map_nth_error; exact Ht).
-    rewrite Hm in X. rewrite nth_error_map in X. destruct (nth_error ks i); simpl in *; congruence.
+    rewrite Hm in X. rewrite nth_error_map in X. destruct (nth_error ks i) as [k|]; simpl in X; [|discriminate].
+    exists t', k. repeat split; auto. congruence.
 Qed.
 
 (** ** COMPLETE CONSUMPTION: when extractKeys succeeded and there are as many results as keys, grafting fails
@@ -666,11 +667,20 @@ Proof.
   { destruct (nth_error ks j) eqn:E; eauto. apply nth_error_None in E.
     assert (j < List.length (targets path node)) by (apply nth_error_Some; congruence). lia. }
   destruct Hki as [ki Hki], Hkj as [kj Hkj].
-  destruct (Hn i ti (f ki) Hi) as [ti' [Ai [Bi Ci]]]; [rewrite nth_error_map, Hki; reflexivity|].
-  destruct (Hn j tj (f kj) Hj) as [tj' [Aj [Bj Cj]]]; [rewrite nth_error_map, Hkj; reflexivity|].
-  rewrite Hki in Ci. rewrite Hkj in Cj. simpl in Ci, Cj. inversion Ci as [Ci']. inversion Cj as [Cj'].
+  destruct (Hn i ti (f ki) Hi) as [ti' [ki' [Ai [Bi [Ci Di]]]]]; [rewrite nth_error_map, Hki; reflexivity|].
+  destruct (Hn j tj (f kj) Hj) as [tj' [kj' [Aj [Bj [Cj Dj]]]]]; [rewrite nth_error_map, Hkj; reflexivity|].
+  assert (ki' = ki) by congruence. assert (kj' = kj) by congruence. subst ki' kj'.
   assert (ki = kj) by congruence. subst kj.
-  exists ki. split; [congruence|]. split; congruence.
+  exists ki. split; [exact Di|]. split; congruence.
+Qed.
+
+(** a tree in which the walk meets no target comes back as it is *)
+Lemma set_key_same : forall k v (l : list (string * json)), lookup k l = Some v -> set_key k v l = l.
+Proof.
+  intros k v l. induction l as [|[k' v'] t IH]; simpl; [reflexivity|].
+  destruct (String.eqb k k') eqn:E; intros H.
+  - apply String.eqb_eq in E. inversion H; subst. reflexivity.
+  - rewrite IH by exact H. reflexivity.
 Qed.
 
 (** * 3. Nothing but the targets changes *)
@@ -714,6 +724,42 @@ Proof.
       destruct (String.eqb s t) eqn:Es; [|inversion Hg; reflexivity].
       destruct (graft_obj_keeps _ _ _ _ _ Hg) as [kvs' [-> Hk]].
       rewrite !skeleton_type_obj, El, (Hk _ _ El eq_refl), Es. eapply IHp; eauto.
+Qed.
+
+Lemma skeleton_no_targets_list : forall path l,
+  Forall (fun e => targets path e = [] -> skeleton path e = e) l ->
+  flat_map (targets path) l = [] -> map (skeleton path) l = l.
+Proof.
+  intros path l H. induction H as [|e t He _ IH]; simpl; intros Hn; [reflexivity|].
+  apply app_eq_nil in Hn as [H1 H2]. rewrite (He H1), (IH H2). reflexivity.
+Qed.
+
+Lemma skeleton_no_targets : forall path node, targets path node = [] -> skeleton path node = node.
+Proof.
+  induction path as [|[name|t] restp IHp]; intros node.
+  - induction node using json_ind'; intros Hn; try reflexivity.
+    + rewrite targets_arr in Hn. rewrite skeleton_arr, (skeleton_no_targets_list _ _ H Hn). reflexivity.
+    + discriminate.
+  - induction node using json_ind'; intros Hn; try reflexivity.
+    + rewrite targets_arr in Hn. rewrite skeleton_arr, (skeleton_no_targets_list _ _ H Hn). reflexivity.
+    + rewrite targets_field_obj in Hn. rewrite skeleton_field_obj.
+      destruct (lookup name l) as [next|] eqn:El; [|reflexivity].
+      rewrite (IHp _ Hn), (set_key_same _ _ _ El). reflexivity.
+  - induction node using json_ind'; intros Hn; try reflexivity.
+    + rewrite targets_arr in Hn. rewrite skeleton_arr, (skeleton_no_targets_list _ _ H Hn). reflexivity.
+    + rewrite targets_type_obj in Hn. rewrite skeleton_type_obj.
+      destruct (lookup "__typename" l) as [[| | |s| |]|]; try reflexivity.
+      destruct (String.eqb s t); [apply IHp; exact Hn | reflexivity].
+Qed.
+
+Theorem graft_without_targets_is_identity : forall path node rs node' rest,
+  targets path node = [] -> graft path node rs = Some (node', rest) -> node' = node /\ rest = rs.
+Proof.
+  intros path node rs node' rest Hn Hg.
+  destruct (graft_some_merge_each _ _ _ _ _ Hg) as [_ He]. rewrite Hn in He. simpl in He. inversion He as [[Hn' Hr]].
+  split; [|reflexivity].
+  rewrite <- (skeleton_no_targets path node' (eq_sym Hn')), <- (skeleton_no_targets path node Hn).
+  eapply graft_skeleton; eauto.
 Qed.
 
 (** * 4. NULLS IN LISTS: null elements of the arrays on the way contribute no key and take no result; with
